@@ -1125,6 +1125,13 @@ var ruleParams = &core.Rule{ID: "R02.2", Min: 5,
 		if len(bodies) == 0 {
 			core.Bail("no allocation of a result node found in the chain clone or a clone function it calls")
 		}
+		formatted := map[ssa.Value]bool{}
+		wantsFormat := map[ssa.Value]*ssa.Store{}
+		defer func() {
+			for v, st := range wantsFormat {
+				s.Check(formatted[v], st.Parent().Name()+": parameters given to the copy are attached", c.Pos(st.Pos()), "one source of the type string is mime.FormatMediaType(type, ps)", "the copy receives a parameter map but its type string never comes from mime.FormatMediaType: the sniffed charset is dropped from every result")
+			}
+		}()
 		for _, nc := range bodies {
 			g := nc.fn
 			psOf := nc.ps
@@ -1147,15 +1154,14 @@ var ruleParams = &core.Rule{ID: "R02.2", Min: 5,
 					} else {
 						vals = []ssa.Value{x.Val}
 					}
-					// a copy that is given parameters attaches them: one source is the formatted string
-					if psOf != nil && !core.IsNilConst(psOf) {
-						formatted := false
-						for _, v := range vals {
-							if call, ok := v.(*ssa.Call); ok && core.CalleeIs(&call.Call, "mime", "FormatMediaType") {
-								formatted = true
-							}
+					// a copy that is given parameters attaches them: one source (of one of the stores) is the formatted string
+					for _, v := range vals {
+						if call, ok := v.(*ssa.Call); ok && core.CalleeIs(&call.Call, "mime", "FormatMediaType") {
+							formatted[nc.val] = true
 						}
-						s.Check(formatted, g.Name()+": parameters given to the copy are attached", c.Pos(x.Pos()), "one source of the type string is mime.FormatMediaType(type, ps)", "the copy receives a parameter map but its type string never comes from mime.FormatMediaType: the sniffed charset is dropped from every result")
+					}
+					if psOf != nil && !core.IsNilConst(psOf) {
+						wantsFormat[nc.val] = x
 					}
 					for i, v := range vals {
 						key := fmt.Sprintf("%s: type string of the clone, source #%d", g.Name(), i+1)
